@@ -56,6 +56,7 @@ type expBundle struct {
 }
 
 var (
+	expDenied  []name // subjects of the NXDOMAIN bundles that reached the writer
 	expCache   *cache.Cache
 	expBase    time.Time
 	expNow     int64
@@ -118,7 +119,7 @@ func execExp(f []string) vlib.Res {
 		expCache = cache.New(&config.Config{CacheSize: 1024, Expire: 600})
 		expBase = time.Now().Truncate(time.Second)
 		cache.VerifC02FreezeProofClock(expCache, expBase)
-		expNow, expBundles = 0, nil
+		expNow, expBundles, expDenied = 0, nil, nil
 		pm, cm := cache.VerifC02MaxTTLs(expCache)
 		or := "ok"
 		if int(pm/time.Second) != atoi(f[2]) || int(cm/time.Second) != atoi(f[3]) {
@@ -183,6 +184,9 @@ func execExp(f []string) vlib.Res {
 		calls := expStub.calls
 		ch.Reset(w, req)
 		ch.Next(context.Background())
+		if nx && expStub.calls > calls {
+			expDenied = append(expDenied, subject.fold())
+		}
 		return vlib.Res{Impl: fmt.Sprintf("ok up=%d", expStub.calls-calls)}
 	case "ask":
 		q, t := parseName(f[2]), uint16(atoi(f[3]))
@@ -254,6 +258,17 @@ func execExp(f []string) vlib.Res {
 			cv = "hit"
 			if or == "ok" {
 				judge("cut", m)
+			}
+			// RFC 8020: a cut denies the denied name and what is below it, label by
+			// label (an octet 0x2E inside a label is not a label boundary)
+			inside := false
+			for _, d := range expDenied {
+				if q.fold().under(d) {
+					inside = true
+				}
+			}
+			if !inside {
+				or = "FAIL sig=exp/cut/name-outside-every-denied-subtree q=" + q.String()
 			}
 		}
 		tags := ""
@@ -355,12 +370,24 @@ func genExpBundle(r *vlib.R, p expPlan, now int64, span int, nx bool, seq int) (
 	return fmt.Sprintf("exp put %s %s %s %d %s %s %s", p.zone, kind, subject, qtype, soa, cut, strings.Join(ss, ";")), subject
 }
 
+// lookAlikes: names OUTSIDE the subtree of d whose presentation text ends with
+// d's text: d's leaf label glued behind another label's octets with a literal
+// dot, a backslash-dot pair, and a child of such a name; plus d's own children
+// (inside) for contrast.
+func lookAlikes(r *vlib.R, d name) []name {
+	par := d.parent()
+	pre := vlib.Pick(r, []string{"a", "x", "www", "a\\", "\\", "0"})
+	glued := par.child(pre + "." + d[0])
+	return []name{glued, glued.child("k"), par.child("." + d[0]), d.child("a.b"), d.child("k")}
+}
+
 func genExpCase(r *vlib.R, emit func(string)) int {
 	pm, cm := expCeilings()
 	emit(fmt.Sprintf("exp new %d %d", pm, cm))
 	cnt := 1
 	p := expPlan{zone: parseName(fmt.Sprintf("z%d.c02x.test", r.Intn(4))), spans: [][2]string{{"", "c"}, {"c", "m"}, {"m", "t"}, {"t", ""}}}
 	now := int64(0)
+	var denied []name
 	asks := func() {
 		// questions the stored proofs would deny: inside every span, at every owner, below a denied name
 		for _, sp := range p.spans {
@@ -375,13 +402,20 @@ func genExpCase(r *vlib.R, emit func(string)) int {
 		emit(fmt.Sprintf("exp ask %s 1", p.zone.child("c00").child("deep")))
 		emit(fmt.Sprintf("exp ask %s 1", p.zone.child("m01").child("deep")))
 		cnt++
+		for _, d := range denied {
+			for _, q := range lookAlikes(r, d) {
+				emit(fmt.Sprintf("exp ask %s 1", q))
+				cnt++
+			}
+		}
 		cnt++
 	}
 	// two proofs for the same zone admitted in BOTH orders (two cases with the
 	// same two bundles), then time passes until one of them has lapsed
 	if r.Chance(1, 3) {
-		a, _ := genExpBundle(r, p, 0, 1+r.Intn(3), r.Bool(), 0)
-		b, _ := genExpBundle(r, p, 0, r.Intn(4), r.Bool(), 1)
+		a, sa := genExpBundle(r, p, 0, 1+r.Intn(3), r.Bool(), 0)
+		b, sb := genExpBundle(r, p, 0, r.Intn(4), r.Bool(), 1)
+		denied = []name{sa, sb}
 		steps := []int64{5 + 10*int64(r.Intn(6)), 10 * int64(1+r.Intn(10)), 10 * int64(1+r.Intn(20))}
 		for _, pair := range [][2]string{{a, b}, {b, a}} {
 			if pair[0] != a {
@@ -411,7 +445,11 @@ func genExpCase(r *vlib.R, emit func(string)) int {
 		if i >= 2 {
 			span = r.Intn(4)
 		}
-		op, _ := genExpBundle(r, p, now, span, r.Chance(2, 3), i)
+		op, subj := genExpBundle(r, p, now, span, r.Chance(2, 3), i)
+		denied = append(denied, subj)
+		if len(denied) > 3 {
+			denied = denied[1:]
+		}
 		emit(op)
 		cnt++
 		// look, let time pass in uneven steps, look again
